@@ -3,7 +3,8 @@
              [ [t; opcode; ip; arg] ... ] ; [observed result ...] ; [mask ...] ]
    times/durations in the same unit (the harness uses nanoseconds, tps = 10^9).
    opcode: 0 fail 1 succ 2 query 3 ban(arg=dur) 4 unban 5 cleanup 6 bladd(arg=dur) 7 blrm 8 wladd 9 wlrm
-           10 allowed 11 blcleanup 12 allowip(arg=n) 13 rlcleanup 14 handshake(arg: 0 bad id, 1 anonymous ok, 2 anonymous failing)
+           10 allowed 11 blcleanup 12 allowip(arg=n) 13 rlcleanup 14 handshake(arg: 0 bad id, 1 ClientID 0 registering token ok, 2 same with failing credential generation,
+                        3 ClientID 0 with a token that does not register; the driver maps (kind, token form) through the probed table)
            15 restart (all components rebuilt over the same storage);  ip >= 1000 is a CIDR key (see Model/Lockout.v keys_of)
    A step is compared only where its mask is 1 (the driver masks the steps whose model answer is not the same
    under all perturbed time lines). *)
@@ -18,7 +19,8 @@ Definition dec_variant (v : tval) : variant :=
 Definition dec_cfg (v : tval) : cfg :=
   {| maxf := vz (vnth 0 v); window := vz (vnth 1 v); band := vz (vnth 2 v); perm := vz (vnth 3 v);
      rate := vz (vnth 4 v); burst := vz (vnth 5 v); ttl := vz (vnth 6 v); tps := vz (vnth 7 v) |}.
-Definition dec_kind (a : N) : hkind := match a with 0%N => HBad | 1%N => HAnonOk | _ => HAnonFail end.
+Definition dec_kind (a : N) : hkind :=
+  match a with 0%N => HBad | 1%N => HAnonOk | 2%N => HAnonFail | _ => HZeroJunk end.
 Definition dec_call (code ip arg : N) : call :=
   match code with
   | 0%N => CFail ip | 1%N => CSucc ip | 2%N => CQuery ip | 3%N => CBan ip (Z.of_N arg) | 4%N => CUnban ip
